@@ -1,17 +1,19 @@
 """C06 - unbounded MPMC queues are linearizable FIFO queues (DESIGN 7, C06).
 
-Coq: Properties_C06.v (MSQueue / MoirQueue linearizable for every schedule; corollaries in the property's words).
-Tie: step correspondence LV.Model.MSQueue <-> cds::container::{MSQueue,MoirQueue} and cds::intrusive::{MSQueue,MoirQueue}
+Coq: Properties_C06.v (MSQueue / MoirQueue / OptimisticQueue / RWQueue linearizable for every schedule; corollaries in
+     the property's words).
+Tie: step correspondence LV.Model.MSQueue <-> cds::container::{MSQueue,MoirQueue} and cds::intrusive::{MSQueue,MoirQueue},
+     LV.Model.OptQueue <-> container / intrusive OptimisticQueue, LV.Model.RWQueue <-> container::RWQueue
      (HP and DHP, item counter on/off, relaxed / seq_cst memory-model trait) under the deterministic scheduler.
-Search / observable correspondence: every real history of every variant (also BasketQueue, OptimisticQueue, RWQueue,
-     FCQueue with and without elimination) is decided by the verified extracted `lincheck` for `Fifo`.
+Search / observable correspondence: every real history of every variant (also BasketQueue and FCQueue with and without
+     elimination, which have no model here) is decided by the verified extracted `lincheck` for `Fifo`.
 """
 import os, json, hashlib, time
 from concurrent.futures import ThreadPoolExecutor
 import vcheck, conc_check
 
 # variant id -> (name, harness group, model configuration (moir, item counter, hp) or None = observable only
-#                [, model: "ms" = LV.Model.MSQueue (default), "rw" = LV.Model.RWQueue])
+#                [, model: "ms" = LV.Model.MSQueue (default), "rw" = LV.Model.RWQueue, "opt" = LV.Model.OptQueue])
 VARIANTS = {
     0: ("container::MSQueue<HP>", 0, (0, 0, 1)),
     1: ("container::MoirQueue<HP>", 0, (1, 0, 1)),
@@ -37,12 +39,12 @@ VARIANTS = {
     23: ("container::BasketQueue<HP,seq_cst>", 2, None),
     24: ("intrusive::BasketQueue<HP>", 2, None),
     25: ("intrusive::BasketQueue<DHP>", 2, None),
-    30: ("container::OptimisticQueue<HP>", 3, None),
-    31: ("container::OptimisticQueue<DHP>", 3, None),
-    32: ("container::OptimisticQueue<HP,item_counter>", 3, None),
-    33: ("container::OptimisticQueue<HP,seq_cst>", 3, None),
-    34: ("intrusive::OptimisticQueue<HP>", 3, None),
-    35: ("intrusive::OptimisticQueue<DHP>", 3, None),
+    30: ("container::OptimisticQueue<HP>", 3, (0, 0, 1), "opt"),
+    31: ("container::OptimisticQueue<DHP>", 3, (0, 0, 0), "opt"),
+    32: ("container::OptimisticQueue<HP,item_counter>", 3, (0, 1, 1), "opt"),
+    33: ("container::OptimisticQueue<HP,seq_cst>", 3, (0, 0, 1), "opt"),
+    34: ("intrusive::OptimisticQueue<HP>", 3, (0, 0, 1), "opt"),
+    35: ("intrusive::OptimisticQueue<DHP>", 3, (0, 0, 0), "opt"),
     40: ("container::RWQueue<non-reusing allocator>", 4, (0, 0, 0), "rw"),
     41: ("container::RWQueue<non-reusing allocator,item_counter>", 4, (0, 1, 0), "rw"),
     47: ("container::RWQueue", 4, None),
@@ -331,7 +333,8 @@ def run(ctx):
     ctx.coq_evidence(res)
     lin = build_lincheck(ctx)
     model = {"ms": conc_check.build_model(ctx, "Extract_MSQueue.v"),
-             "rw": conc_check.build_model(ctx, "Extract_RWQueue.v", tag="model_rw")}
+             "rw": conc_check.build_model(ctx, "Extract_RWQueue.v", tag="model_rw"),
+             "opt": conc_check.build_model(ctx, "Extract_OptQueue.v", tag="model_opt")}
     exes = build_harnesses(ctx)
     ctx.log("built: coq %s (%.0fs), lincheck, model, %d harness groups" % ("ok" if res.ok else "FAILED", res.wall_s, len(exes)))
     stats = {}
@@ -360,7 +363,10 @@ def run(ctx):
     cdir = os.path.join(vcheck.VERIF, "corpus", "C06")
     for f in sorted(os.listdir(cdir)) if os.path.isdir(cdir) else []:
         if f.endswith(".json"):
-            corpus.append(json.load(open(os.path.join(cdir, f))))
+            c = json.load(open(os.path.join(cdir, f)))
+            mc = VARIANTS.get(c["cfg"][4], (None, None, None))[2] or (0, 0, 1)      # model configuration of the variant as of today
+            c["cfg"] = [mc[0], mc[1], mc[2], LOOP_FUEL, c["cfg"][4]]
+            corpus.append(c)
     scale = 5 if ctx.thorough() else 1
     per_group = {0: 1000 * scale, 1: 640 * scale, 2: 600 * scale, 3: 600 * scale, 4: 330 * scale}
     all_cases = []
@@ -419,9 +425,12 @@ def run(ctx):
                 break
         if not found:
             mk = model_kind(var)
-            ctx.violation("step correspondence between LV.Model.%s and %s no longer holds" % ("RWQueue" if mk == "rw" else "MSQueue", VARIANTS[var][0]),
-                          {"correspondence": "coq/Model/RWQueue.v vs cds/container/rwqueue.h, cds/sync/spinlock.h" if mk == "rw" else
-                                             "coq/Model/MSQueue.v vs cds/intrusive/msqueue.h, moir_queue.h, cds/container/msqueue.h, cds/gc/hp.h (protect/retire)",
+            mname = {"rw": "RWQueue", "opt": "OptQueue", "ms": "MSQueue"}[mk]
+            corr = {"rw": "coq/Model/RWQueue.v vs cds/container/rwqueue.h, cds/sync/spinlock.h",
+                    "opt": "coq/Model/OptQueue.v vs cds/intrusive/optimistic_queue.h, cds/container/optimistic_queue.h, cds/gc/hp.h (protect/retire)",
+                    "ms": "coq/Model/MSQueue.v vs cds/intrusive/msqueue.h, moir_queue.h, cds/container/msqueue.h, cds/gc/hp.h (protect/retire)"}[mk]
+            ctx.violation("step correspondence between LV.Model.%s and %s no longer holds" % (mname, VARIANTS[var][0]),
+                          {"correspondence": corr,
                            "variant": VARIANTS[var][0], "case": c, "first_divergence": d,
                            "searched": "9000 further program x schedule pairs of this group, all histories linearizable"}, no_input=True)
     if not res.ok:
@@ -449,8 +458,8 @@ def run(ctx):
         "traces_validated_against_impl": sum(st["cases"] - st["diverged"] - st["overrun"] for st in pv.values() if st["level"] == "step"),
         "corpus_cases": len(corpus),
         "samples": samples,
-        "modelled": "cds::container / cds::intrusive MSQueue and MoirQueue (enqueue, dequeue over intrusive enqueue / do_dequeue / dispose_node; HP and DHP guard traffic; item counter); cds::container::RWQueue (enqueue, dequeue, spin locks)",
-        "not_modelled_observable_only": "BasketQueue, OptimisticQueue, FCQueue (+elimination), RWQueue with the default allocator: histories decided by the verified lincheck only",
+        "modelled": "cds::container / cds::intrusive MSQueue and MoirQueue (enqueue, dequeue over intrusive enqueue / do_dequeue / dispose_node; HP and DHP guard traffic; item counter); cds::container::RWQueue (enqueue, dequeue, spin locks); cds::container / cds::intrusive OptimisticQueue (enqueue, do_dequeue, fix_list)",
+        "not_modelled_observable_only": "BasketQueue, FCQueue (+elimination), RWQueue with the default allocator: histories decided by the verified lincheck only",
     })
     return ctx.finish(vcheck.STD_TRUSTED + [
         "hook layer: khizmax_libcds_verif::atomic<T>, baton scheduler, event log (hooks/include)",
@@ -459,5 +468,5 @@ def run(ctx):
         ["smr_safe: the model's allocator never reuses a node (conclusion of C01/C02 for gc::HP / gc::DHP)",
          "sequential consistency: memory_order arguments are not modelled (relaxed and seq_cst trait variants are both run)",
          "compare_exchange_weak never fails spuriously under the hook",
-         "BasketQueue, OptimisticQueue, FCQueue: no Coq theorem in this check; lincheck on sampled schedules only",
+         "BasketQueue, FCQueue: no Coq theorem in this check; lincheck on sampled schedules only",
          "RWQueue step correspondence uses an allocator that frees nodes after the case (the default allocator variant is observable only)"])
